@@ -1,4 +1,5 @@
 import PexpectModel.Async
+import PexpectModel.AsyncCancel
 /-! # C14 — asyncio parity: async_=True gives the same answers as the blocking call.
 
 The awaited path (`expect_async` + `PatternWaiter`) is modelled over the *same* Expecter functions as the
@@ -67,6 +68,31 @@ theorem async_timeout_bound (sr : Searcher α) (W : Nat) (pre : List (List α)) 
     ((aloop sr W st (pre.map .dataReceived ++ .timeoutFired :: rest)).2.2 = rest ∧
       ∃ b, (aloop sr W st (pre.map .dataReceived ++ .timeoutFired :: rest)).1 = .timeout b) :=
   aloop_stops_at_timer sr W pre rest st
+
+/-! ### awaited calls the caller gives up, output that arrives while no call is outstanding on a transport that was left reading -/
+
+/-- over any history of calls, abandoned awaited calls and idle deliveries: handed back ++ pending = pending at the start ++ everything
+    the loop delivered; the state invariant (the search buffer is a suffix of the pending text) holds throughout -/
+theorem abandoned_history_conserves (ops : List (HOp α)) (hwf : ∀ op ∈ ops, op.WF) (evs : List (AEv α)) (st : St α) (hI : Inv st) :
+    ∃ used, evs = used ++ (hrun st ops evs).2.2 ∧
+      st.B ++ dataOf (used.map AEv.toEv) = handedOpt (hrun st ops evs).1 ++ (hrun st ops evs).2.1.B ∧
+      Inv (hrun st ops evs).2.1 :=
+  Ex.hrun_conserves ops hwf evs st hI
+
+theorem abandoned_call_consumes_nothing (k : Kind α) (hk : k.WF) (W : Nat) (evs : List (AEv α)) (st : St α) (hI : Inv st)
+    (b : List α) (h : (acall k.sr W st evs).1 = .timeout b) :
+    ∃ used, evs = used ++ (acall k.sr W st evs).2.2 ∧ (acall k.sr W st evs).2.1.B = st.B ++ dataOf (used.map AEv.toEv) :=
+  Ex.abandoned_consumes_nothing k hk W evs st hI b h
+
+theorem idle_output_kept_for_next_call (st : St α) (d : List α) (hI : Inv st) :
+    (doneData st d).B = st.B ++ d ∧ (doneData st d).S = st.S ++ d ∧ Inv (doneData st d) :=
+  Ex.idle_output_kept st d hI
+
+/-! non-vacuity: "one " arrives, the caller gives up waiting for "PROMPT"; "two PROMPT three" arrives with nobody waiting; the next call
+    (for "three") gets all of it: nothing was consumed by the abandoned call although its pattern turned up later -/
+example : (hrun ({ B := [], S := [] } : St Nat)
+      [.abandoned (.exact [(0, [80, 82])]) 0, .idle, .call (.exact [(0, [51])]) 0]
+      [.dataReceived [49, 32], .timeoutFired, .dataReceived [50, 80, 82, 51]]).1 = [none, none, some (.hit 0 [49, 32, 50, 80, 82] [51])] := by decide
 
 /-! ### the two known findings, as witnesses against the unrestricted parity claim -/
 
